@@ -20,13 +20,36 @@ RULE = ('2-3 real ActiveObjects, each with spied or un-spied states (drawn indep
 ASSUMPTIONS = ['no stop in this stratum; publications concurrent with a subscription may or may not reach it']
 PROBES = ['unspied_subscriber', 'late_subscriber_with_prior_subscribers', 'publish_before_start', 'subscribe_from_handler']
 PLAN = {
-  'quick': {'strata': {'configs': 3000}, 'wall_s': 150, 'chunk': 50, 'min_conclusive': 800},
-  'thorough': {'strata': {'configs': 80000}, 'wall_s': 900, 'chunk': 100, 'min_conclusive': 8000},
+  'quick': {'strata': {'configs': 3000, 'concurrent-subscribe': 1500}, 'wall_s': 150, 'chunk': 50, 'min_conclusive': 800},
+  'thorough': {'strata': {'configs': 80000, 'concurrent-subscribe': 40000}, 'wall_s': 900, 'chunk': 100, 'min_conclusive': 8000},
 }
 
 
 def generate(seed, stratum, tier):
   rng = random.Random(seed)
+  if stratum == 'concurrent-subscribe':
+    # several objects subscribe to a signal nobody has subscribed to yet, at the same time
+    # (from different client threads or from their own threads)
+    nobj = rng.randrange(2, 4)
+    objs = aw.default_objects(nobj)
+    for o in objs:
+      o['spied'] = rng.random() < 0.6
+      o['react'] = {}
+    kind = rng.choice(['fifo', 'lifo', None])
+    c0 = [['start', i] for i in range(nobj)] + [['await_idle'], ['barrier', nobj]]
+    clients = [c0] + [[['barrier', nobj]] for _ in range(nobj - 1)]
+    for i in range(nobj):
+      k = kind if rng.random() < 0.8 else rng.choice(['fifo', 'lifo'])
+      if rng.random() < 0.5:
+        clients[i].append(['subscribe', i, 'SD', k])
+      else:
+        objs[i]['react']['SB'] = [{'op': 'subscribe', 'sig': 'SD', 'kind': k, 'id': 1, 'max': 1}]
+        clients[i].append(['post_fifo', i, 'SB'])
+    if clients[0][-1][0] != 'await_idle':
+      pass
+    clients[0] += [['sleep', 0.01], ['await_idle'], ['publish', rng.randrange(nobj), 'SD', None], ['await_idle']]
+    return {'objects': objs, 'queue_size': 500, 'clients': clients, 'stalls': {},
+            'sched': common.draw_sched(rng, grans=('line', 'opcode'), weights=(1, 2), expected_steps=300, policies=('sticky', 'pct'))}
   nobj = rng.randrange(2, 4)
   objs = aw.default_objects(nobj)
   for i, o in enumerate(objs):
@@ -71,6 +94,10 @@ def generate(seed, stratum, tier):
 def shrink_candidates(sc):
   if sc.get('stalls'):
     yield dict(sc, stalls={})
+  if len(sc['clients']) > 1:
+    if sc['sched'].get('gran') == 'opcode':
+      yield dict(sc, sched=dict(sc['sched'], gran='line'))
+    return
   s = sc['clients'][0]
   for j in range(len(s) - 1, -1, -1):
     if s[j][0] in ('start',):
